@@ -526,6 +526,14 @@ class ExprMixin:
                 out.append(r if isinstance(op, ast.In) else z3.Not(r))
                 left = None
                 continue
+            if isinstance(op, (ast.Eq, ast.NotEq)) and isinstance(rhs, ast.List) and not rhs.elts and left is not None and \
+                    (left.kind == 'ref' and left.cls == 'list' or (left.kind == 'val' and left.ty is not None and left.ty.kind == 'list')):
+                # comparison of a list with the empty list display: equal iff the list is empty (no allocation needed)
+                l_ = left.t if left.kind == 'ref' else self.as_ref(left, st, '== []')
+                r = self.list_len(l_, st) == 0
+                out.append(r if isinstance(op, ast.Eq) else z3.Not(r))
+                left = None
+                continue
             if isinstance(op, (ast.In, ast.NotIn)) and isinstance(rhs, (ast.ListComp, ast.GeneratorExp)) and len(rhs.generators) == 1:
                 # x in [f(a) for a in L if c]  ==  any(f(a) == x for a in L if c): the temporary list is never observable
                 lhs_expr = e.left if rhs is e.comparators[0] else None
